@@ -38,6 +38,7 @@ def check(ctx, m, cfg, ret_sets, callers=None):
             for c in codes:
                 ncodes += 1
                 ex = Explorer(f, start_block=i.block.idx)
+                ex.seed_dominating = True
                 # this execution of the call fails with c; a later execution of the same call (next loop iteration) may return anything the callee can
                 ex.assume_once[i.id] = (explore.const(c, 32), [explore.const(v, 32) for v in sorted(ret_sets.get(i.callee, {0}))])
                 ex.run()
